@@ -58,11 +58,16 @@ def r17_1(ctx):
         models = [(cmd_text, Outcomes(OK(ok_res), OK(bad_res), RAISE("EzspError"), RAISE("TimeoutError"), RAISE("CancelledError"))),
                   ("await:listener", Outcomes(OK(sl[want]), RAISE("TimeoutError"), RAISE("CancelledError"))),
                   ("*.create_future", lambda px, t, a, k, fr: fut("listener")),
-                  ("self._ezsp.networkState", Outcomes(OK((repo.cls(NAMED, "EmberNetworkStatus").members()["NO_NETWORK"],))))]
+                  # the state query that decides whether bring-up is needed says "no network"; any later poll of the same query (a
+                  # fall-back after a missing event) says "joined": the event still has to be seen
+                  ("self._ezsp.networkState", lambda px_, t, a, k, fr: (holder.__setitem__("polls", holder.get("polls", 0) + 1),
+                                                                        Outcomes(OK((repo.cls(NAMED, "EmberNetworkStatus").members()[
+                                                                            "NO_NETWORK" if holder["polls"] == 1 else "JOINED_NETWORK"],))))[1])]
         px = PX(repo, models=models, inline=same_class(extra=("from_ember_status", "wait_for_stack_status")))
         holder = {}
 
         def setup():
+            holder["polls"] = 0
             holder["lst"] = {m: [] for m in (sl["NETWORK_UP"], sl["NETWORK_DOWN"])}
             ez_fields = {"_stack_status_listeners": holder["lst"]}
             if recv == "self":
